@@ -478,7 +478,8 @@ def build(spec):
     D = catalogue()
     Pd = {p[0]: p for p in paired()}
     wn = base_model()
-    for n in spec["devs"]:
+    # deviations that replace a link (pump on p1, valve on p2) first: later ones (controls, rules) may refer to that link
+    for n in sorted(spec["devs"], key=lambda n: 0 if (n in D and D[n][0] in ("p1kind", "p2kind")) else 1):
         if n in D:
             D[n][1](wn)
         else:
